@@ -265,7 +265,7 @@ def run(ctx):
     results = zoo.run_pool(run_ftp_job, jobs)
 
     # ---- model requests ------------------------------------------------------------------------------
-    req = list(mat_lines)
+    req = []
     look = {}
     for job, res in zip(jobs, results):
         cs = job['code']
@@ -288,7 +288,7 @@ def run(ctx):
     tp_base = len(req)
     for T, a, b in tp_cases:
         req.append('tp %d %d %d' % (T, a, b))
-    out = ctx.model('dec', req, timeout=1800)
+    out = zoo.model_parallel(ctx, 'dec', req, prefix=mat_lines)
     for i, (T, a, b) in enumerate(tp_cases):
         impl = str(int(RT._tparity(T, a, b)))
         ctx.cmp('_tparity', (T, a, b), impl, out[tp_base + i])
